@@ -15,7 +15,8 @@ import traceback
 
 VERIF = os.path.dirname(os.path.dirname(os.path.abspath(__file__)))
 REPO = os.environ.get('VERIF_REPO', '/repo')
-EVID = os.path.join(VERIF, 'evidence')
+# (VERIF_EVIDENCE_DIR: sensitivity runs against scratch worktrees must not overwrite the evidence of /repo)
+EVID = os.environ.get('VERIF_EVIDENCE_DIR') or os.path.join(VERIF, 'evidence')
 KNOWN = os.path.join(VERIF, 'known_findings.json')
 
 try:
